@@ -26,4 +26,11 @@ def jobs(tier, seed):
     js = [Job("C14/sampler", "contracts.C14:job_sampler", dict(seed=seed, timeout_s=t))]
     for m in ([2, 3, 4] if tier == "quick" else list(range(2, 17))):
         js.append(Job(f"C14/empi/{m}", "contracts.C14:job_empi", dict(m=m, seed=seed, timeout_s=t)))
+    from .C02 import e2_jobs
+    js += e2_jobs("C14", ["contracts.C14_e2:SeededGeneration"], tier, seed)
     return js
+
+CLAIM = {'engine': 'E1-pyvc + E2-symtwin', 'level': 'proof',
+ 'text': 'E1, unbounded in data length: the inverse-CDF sampler returns an in-range index that is the smallest k with r < p_0+..+p_k and NEVER an outcome of zero probability (loop invariants over prefix sums, both loops); calc_empi_dist_sequence returns one entry per requested size, each exactly (n, counts of the first n data / n), non-negative and summing to one (invariant: frequency vector = prefix counts). E2 with ghost random streams: for twelve data-generation entry points (data_generator, Experiment, the four tomography classes) an integer seed draws only from the stream the seed identifies, from its start, and never touches the global state; a caller-owned generator is advanced by exactly the draws made; without seed the global state is used; empirical distributions are counts / n.',
+ 'note': 'Not decided: that sampling follows the requested distribution (numpy / scipy generators trusted). Floats as reals. calc_empi_dist_sequence for measurement_num 2..4 (2..16 thorough), requested sizes >= 1 (what every call site passes).',
+ 'technique': 'contract-based deductive verification (AST->VC with loop invariants and ghost prefix sums / counts, z3; symbolic execution with ghost random streams)'}
